@@ -477,10 +477,23 @@ def run(ctx):
                 if hr is not None:
                     okc, v = const_str(ctx, cf.module, hr)
                     r4.check(okc and len(v) <= 1, f"{cf.fq}:headers_required={norm(hr)}", "at most one required header (so the 'missing' set has at most one element)", cf.loc(c))
-    fm = ctx.func("pyxform.validators.pyxform.translations_checks:format_missing_translations_msg.get_sheet_msg", "C14.R4")
-    joins = [c for c in walk_own(fm.node) if isinstance(c, ast.Call) and call_name(c) == "join" and c.args and "cols" in norm(c.args[0])]
-    r4.check(bool(joins) and all(isinstance(c.args[0], ast.Call) and call_name(c.args[0]) == "sorted" for c in joins), "format_missing_translations_msg:columns",
-             "missing-translation columns are sorted before they are joined into the warning", fm.loc())
+    # the missing-translations advisory names languages and columns in ONE order whatever order they were collected in
+    # (evaluated: every permutation of three columns x both orders of two languages gives the same text)
+    import itertools as _itp
+    from ..interp import Raised as _Raised
+    fm = ctx.func("pyxform.validators.pyxform.translations_checks:format_missing_translations_msg", "C14.R4")
+    texts = set()
+    for cols_ in _itp.permutations(("label", "hint", "media::image")):
+        for langs_ in (("fr", "en"), ("en", "fr")):
+            itf_ = ctx.interp("C14.R4", inline=lambda fi: True)
+            itf_.reset([])
+            arg_ = {"survey": {l_: list(cols_) for l_ in langs_}, "choices": {"fr": [c_ for c_ in cols_ if c_ != "media::image"]}}
+            try:
+                texts.add(itf_.call_function(fm, [], {"_in": arg_}, None, fm.node))
+            except _Raised as e:
+                texts.add(f"raises {e.exc_name}")
+    r4.check(len(texts) == 1 and isinstance(next(iter(texts)), str) and "label" in next(iter(texts)), "format_missing_translations_msg:columns",
+             "the advisory text does not depend on the order in which languages and columns were collected", fm.loc(), why_fail=f"{len(texts)} different texts, e.g. {sorted(map(str, texts))[:2]}")
     rules.append(r4)
 
     # ------------------------------------------------------------------ R5
